@@ -308,6 +308,9 @@ struct InputReader {
     /// The leading underscore suppresses the "unused field" warning while making
     /// it explicit this field exists solely for its `Drop` implementation.
     _term_mode: Option<brush_core::terminal::AutoModeGuard>,
+    /// Whether the input is a terminal. Control characters typed at a terminal are editing
+    /// keys; in a file or a pipe they are data.
+    is_terminal: bool,
 }
 
 /// Events that can occur when reading input.
@@ -331,11 +334,13 @@ impl InputReader {
         timeout: Option<Duration>,
         term_mode: Option<brush_core::terminal::AutoModeGuard>,
     ) -> Self {
+        let is_terminal = input.is_terminal();
         Self {
             input,
             deadline: timeout.and_then(|t| Instant::now().checked_add(t)),
             buffer: [0; 1],
             _term_mode: term_mode,
+            is_terminal,
         }
     }
 
@@ -374,10 +379,10 @@ impl InputReader {
             self.read_rest_of_char(first)?
         };
 
-        // Map control characters to events.
+        // Map control characters to events (when they were typed at a terminal).
         Ok(match ch {
-            CTRL_C => InputEvent::CtrlC,
-            CTRL_D => InputEvent::CtrlD,
+            CTRL_C if self.is_terminal => InputEvent::CtrlC,
+            CTRL_D if self.is_terminal => InputEvent::CtrlD,
             _ => InputEvent::Char(ch),
         })
     }
@@ -514,8 +519,8 @@ fn read_line_with_reader(
                     return Ok(ReadResult::Line(line));
                 }
 
-                // Ignore non-whitespace control characters.
-                if ch.is_ascii_control() && !ch.is_ascii_whitespace() {
+                // Ignore non-whitespace control characters typed at a terminal.
+                if reader.is_terminal && ch.is_ascii_control() && !ch.is_ascii_whitespace() {
                     continue;
                 }
 
